@@ -46,7 +46,7 @@ def run(ctx):
         R.run_cases(ctx, stream, cases, PROJ, oracle, classify)
     # the CLI end to end (info yaml, file names, csv files) on a sample of the same generators
     cli_cases = [gen(ctx, kind) for stream, kind, n in streams(ctx) for _ in range(max(8, n // 25))]
-    R.run_cli_cases(ctx, "cli-end-to-end", cli_cases, classify, only=["output file", "does not contain exactly", "unexpected assembly files"])
+    R.run_cli_cases(ctx, "cli-end-to-end", cli_cases, classify, only=["output file", "does not contain exactly", "unexpected assembly files"], names_model=True)
 
 
 def search(ctx, broken):
